@@ -117,7 +117,10 @@ func panicSite() string {
 func outClass(out string) string {
 	// first token up to '=' or ':' or space — a coarse class for the distribution report
 	for i, c := range out {
-		if c == ' ' || c == '=' || c == ':' {
+		if c == ' ' || c == '=' || c == ':' || c == '(' {
+			if c == '(' {
+				return "value"
+			}
 			return out[:i]
 		}
 	}
@@ -185,9 +188,12 @@ func main() {
 	seen := map[string]bool{}
 	for i, op := range g.ops {
 		toks := strings.Fields(op)
+		// the operation is on disk before it runs: if it kills the process (fatal error, out of
+		// memory) it is the line of ops.txt that has no counterpart in go.out
+		fmt.Fprintln(wo, op)
+		wo.Flush()
 		out := safeExec(p, toks)
 		out = strings.ReplaceAll(out, "\n", " ")
-		fmt.Fprintln(wo, op)
 		fmt.Fprintln(wg, out)
 		wg.Flush()
 		m.Evaluations++
